@@ -18,6 +18,13 @@ tables, statements, rows and histories of the model:
                              explicit columns the given value;
 * `updateRow_stored`         the same for UPDATE [IGNORE]; generated columns are recomputed
                              whenever the row changed, an unchanged row is not written;
+* `applySetsSel_genOk`, `chain_recomputed_on_update`, `direct_selection_breaks_chain`
+                             generated columns over generated columns: WHICH generated columns
+                             an UPDATE must recompute — any selection closed under "reads a column
+                             that changes" is enough (the code selects all of them, which is
+                             closed); the direct-dependency selection is refuted on a chain;
+* `stepOdku_preserves`       INSERT … ON DUPLICATE KEY UPDATE (one tuple) runs as the UPDATE of the
+                             existing row or as the INSERT of the tuple;
 * `step_preserves`, `history_stored`  the `Stored` invariant holds after every guarded history;
 * `step_fail_no_effect`      a failed statement leaves the table unchanged;
 * `finding_virtual_column_disables_checks`, `finding_ignore_null_adjustment`
@@ -560,6 +567,105 @@ theorem update_unchanged_noop {T : Table} {ig : Bool} {sets : List (Nat × Src)}
   simp [h]
 
 -- ---------------------------------------------------------------------------------------------
+-- UPDATE: WHICH generated columns get a derived SET (generated columns over generated columns)
+
+/-- The columns an expression reads. -/
+def E.reads : E → List Nat
+  | .col i => [i]
+  | .lit _ => []
+  | .add a b => a.reads ++ b.reads
+  | .mul a b => a.reads ++ b.reads
+
+/-- An expression has the same value on rows that agree on the columns it reads. -/
+theorem E.eval_agree_reads {r r' : Row} (e : E) (h : ∀ j ∈ e.reads, getc r j = getc r' j) :
+    e.eval r = e.eval r' := by
+  induction e with
+  | col i => simp [E.eval, h i (by simp [E.reads])]
+  | lit v => rfl
+  | add a b iha ihb =>
+    have ha := iha (fun j hj => h j (by simp [E.reads, hj]))
+    have hb := ihb (fun j hj => h j (by simp [E.reads, hj]))
+    simp [E.eval, ha, hb]
+  | mul a b iha ihb =>
+    have ha := iha (fun j hj => h j (by simp [E.reads, hj]))
+    have hb := ihb (fun j hj => h j (by simp [E.reads, hj]))
+    simp [E.eval, ha, hb]
+
+/-- `applySets` with the derived SETs restricted to a selection `sel` of the generated columns.
+Go `addDependentUpdateExprs` selects every generated column (`applySetsSel_all`); an "only what
+depends on the SET list" optimisation is a smaller selection. -/
+def applySetsSel (sel : Nat → Bool) (T : Table) (old : Row) (sets : List (Nat × Src)) : Row :=
+  let r := sets.foldl (setStep T) old
+  if r == old then r
+  else assignFold (fun i => if sel i then (colSpec T i).gen.expr? else none) T.cols.length r
+
+/-- The real code: one derived SET per generated column (fact `generatedColumnsGetDerivedSet`). -/
+theorem applySetsSel_all (T : Table) (old : Row) (sets : List (Nat × Src)) :
+    applySetsSel (fun _ => true) T old sets = applySets T old sets := by
+  rw [applySets_eq]; rfl
+
+/-- A column no SET assigns keeps its value through the explicit assignments. -/
+theorem setFold_untouched (T : Table) (sets : List (Nat × Src)) (r : Row) (j : Nat)
+    (h : ∀ p ∈ sets, p.1 ≠ j) : getc (sets.foldl (setStep T) r) j = getc r j := by
+  induction sets generalizing r with
+  | nil => rfl
+  | cons p ps ih =>
+    simp only [List.foldl_cons]
+    rw [ih _ (fun q hq => h q (by simp [hq]))]
+    unfold setStep
+    exact getc_set_ne _ _ (h p (by simp))
+
+/-- The selection is *closed* for this SET list: a generated column that is left out is not
+assigned, and reads only columns that keep their value — not assigned, and not recomputed either.
+(A chain `g1 AS (a*2)`, `g2 AS (g1+1)` with `SET a = …` forces `g1` in, hence `g2` in.) -/
+def SelClosed (sel : Nat → Bool) (T : Table) (sets : List (Nat × Src)) : Prop :=
+  ∀ i e, i < T.cols.length → (colSpec T i).gen.expr? = some e → sel i = false →
+    (∀ p ∈ sets, p.1 ≠ i) ∧
+    ∀ j ∈ e.reads, (∀ p ∈ sets, p.1 ≠ j) ∧ ((colSpec T j).gen.expr? = none ∨ sel j = false)
+
+/-- **Which generated columns must be recomputed.** Recomputing a *closed* selection of the
+generated columns of a row whose generated columns were right keeps every generated column —
+selected or not, at any depth of a chain — equal to its expression over the new values. -/
+theorem applySetsSel_genOk {T : Table} (hwf : T.wf = true) {old : Row} (hlen : old.length = T.cols.length)
+    (hold : GenOk T old) {sel : Nat → Bool} {sets : List (Nat × Src)} (hcl : SelClosed sel T sets)
+    (hne : applySetsSel sel T old sets ≠ old) : GenOk T (applySetsSel sel T old sets) := by
+  unfold applySetsSel at hne ⊢
+  simp only at hne ⊢
+  split
+  · rename_i heq
+    rw [if_pos heq] at hne
+    exact absurd (beq_iff_eq.mp heq) hne
+  · have hl : (sets.foldl (setStep T) old).length = T.cols.length := by rw [setFold_length, hlen]
+    have hg : ∀ i e, i < T.cols.length → (if sel i then (colSpec T i).gen.expr? else none) = some e →
+        e.colsLt i = true := by
+      intro i e hi he
+      cases hs : sel i
+      · simp [hs] at he
+      · simp only [hs, if_true] at he
+        exact genWf hwf i e hi he
+    obtain ⟨_, h2, h3⟩ := assignFold_spec _ T.cols.length _ hl hg
+    intro i hi e he
+    cases hs : sel i
+    · obtain ⟨hni, hreads⟩ := hcl i e hi he hs
+      rw [h3 i (by simp [hs]), setFold_untouched T sets old i hni, hold i hi e he]
+      apply E.eval_agree_reads
+      intro j hj
+      obtain ⟨hnj, hj2⟩ := hreads j hj
+      have hgj : (if sel j then (colSpec T j).gen.expr? else none) = none := by
+        rcases hj2 with h | h
+        · simp [h]
+        · simp [h]
+      rw [h3 j hgj, setFold_untouched T sets old j hnj]
+    · exact h2 i e hi (by simp [hs, he])
+
+/-- The selection "generated columns whose expression reads a column of the SET list" (direct
+dependencies only, not transitive). -/
+def directSel (T : Table) (sets : List (Nat × Src)) (i : Nat) : Bool :=
+  match (colSpec T i).gen.expr? with
+  | some e => e.reads.any fun j => sets.any fun p => p.1 == j
+  | none => false
+
+-- ---------------------------------------------------------------------------------------------
 -- Statements and histories
 
 def AllStored (T : Table) (rows : List Row) : Prop := ∀ r ∈ rows, Stored T r
@@ -683,6 +789,19 @@ theorem step_fail_no_effect (T : Table) (rows : List Row) (st : Stmt) (e : Err)
   split
   · rename_i h'; rw [h'] at h; cases h
   · rfl
+
+/-- **INSERT … ON DUPLICATE KEY UPDATE** keeps the invariant too: it runs as the UPDATE of the
+existing row (all generated columns recomputed, chains included) or as the INSERT of the tuple, or
+fails without effect. -/
+theorem stepOdku_preserves {T : Table} (hwf : T.wf = true) (hcl : T.checksLost = false)
+    {rows : List Row} (cols : List Nat) (vals : List Src) (sets : List (Nat × Src))
+    (hst : ∀ st, odkuStmt T rows cols vals sets = .ok st → StmtOk T rows st) (hinv : AllStored T rows) :
+    AllStored T (stepOdku T rows cols vals sets).1 := by
+  unfold stepOdku
+  split
+  · rename_i st h
+    exact step_preserves hwf hcl (hst st h) hinv
+  · exact hinv
 
 def run (T : Table) (rows : List Row) (h : List Stmt) : List Row :=
   h.foldl (fun rows st => (step T rows st).1) rows
@@ -868,6 +987,63 @@ theorem finding_ignore_null_adjustment_insert :
       run T [] h = [[some 1, some 0, none]] ∧ allStoredOk T (run T [] h) = false :=
   ⟨wT3, wH3, by decide, by decide, by decide, by decide, by decide⟩
 
+-- Generated columns over generated columns ------------------------------------------------------
+
+/-- `CREATE TABLE t (c0 INT PRIMARY KEY, c1 INT, c2 INT AS (c1*2) STORED, c3 INT AS (c2+1) STORED,
+c4 INT AS (c3+c1) STORED)`: a chain of depth 3. -/
+def chT : Table :=
+  { cols := [{ notNull := true, dflt := none, gen := .none }, { notNull := false, dflt := none, gen := .none },
+             { notNull := false, dflt := none, gen := .stored (.mul (.col 1) (.lit (some 2))) },
+             { notNull := false, dflt := none, gen := .stored (.add (.col 2) (.lit (some 1))) },
+             { notNull := false, dflt := none, gen := .stored (.add (.col 3) (.col 1)) }],
+    checks := [] }
+
+/-- `INSERT INTO t (c0,c1) VALUES (2,2); UPDATE t SET c1 = 10 WHERE c0 = 2`. -/
+def chH : List Stmt :=
+  [.insert false [0, 1] [[.val (some 2), .val (some 2)]], .update false [(1, .val (some 10))] (some 2)]
+
+/-- `chain_recomputed_on_update`: an UPDATE that assigns only the base column of a chain of generated
+columns recomputes every link, whatever its depth (all tables whose generated expressions mention
+earlier columns only — generated or plain — all SET lists). -/
+theorem chain_recomputed_on_update {T : Table} (hwf : T.wf = true) {old : Row}
+    (hlen : old.length = T.cols.length) (sets : List (Nat × Src))
+    (hne : applySets T old sets ≠ old) (i : Nat) (hi : i < T.cols.length) (e : E)
+    (he : (colSpec T i).gen.expr? = some e) :
+    getc (applySets T old sets) i = e.eval (applySets T old sets) :=
+  (applySets_spec hwf hlen sets).2 hne i hi e he
+
+/-- Non-vacuity: the depth-3 chain, `SET c1 = 10` on the stored row `(2,2,4,5,7)` gives `(2,10,20,21,31)`. -/
+example : chT.wf = true ∧ run chT [] chH = [[some 2, some 10, some 20, some 21, some 31]] := by decide
+
+/-- `derived_selection_sound`: the derived SETs may be restricted to any selection of the generated
+columns that is closed under "reads a column that changes" — and the real code's selection (all of
+them, `applySetsSel_all`) is closed for every SET list. -/
+theorem derived_selection_sound {T : Table} (hwf : T.wf = true) {old : Row}
+    (hlen : old.length = T.cols.length) (hold : GenOk T old) {sel : Nat → Bool} {sets : List (Nat × Src)}
+    (hcl : SelClosed sel T sets) (hne : applySetsSel sel T old sets ≠ old) :
+    GenOk T (applySetsSel sel T old sets) := applySetsSel_genOk hwf hlen hold hcl hne
+
+theorem all_selection_closed (T : Table) (sets : List (Nat × Src)) : SelClosed (fun _ => true) T sets := by
+  intro i e _ _ h; cases h
+
+/-- **The direct-dependency selection is not enough** (the class of change "recompute a generated
+column only when the statement assigns a column it reads"): on the chain table, `SET c1 = 10`
+selects `c2` and `c4` (they read `c1`) but not `c3` (it reads only `c2`), and the written row
+`(2,10,20,5,15)` has `c3 ≠ c2 + 1`, whereas the real selection writes `(2,10,20,21,31)`. -/
+theorem direct_selection_breaks_chain :
+    chT.wf = true ∧ storedOk chT [some 2, some 2, some 4, some 5, some 7] = true ∧
+    applySetsSel (directSel chT [(1, .val (some 10))]) chT [some 2, some 2, some 4, some 5, some 7] [(1, .val (some 10))]
+      = [some 2, some 10, some 20, some 5, some 15] ∧
+    storedOk chT [some 2, some 10, some 20, some 5, some 15] = false ∧
+    applySets chT [some 2, some 2, some 4, some 5, some 7] [(1, .val (some 10))]
+      = [some 2, some 10, some 20, some 21, some 31] ∧
+    storedOk chT [some 2, some 10, some 20, some 21, some 31] = true := by decide
+
+/-- `INSERT INTO t (c0,c1) VALUES (2,50) ON DUPLICATE KEY UPDATE c1 = 9` on the chain table holding
+`(2,2,4,5,7)`: the existing row becomes `(2,9,18,19,28)` — every link recomputed. -/
+example : (stepOdku chT [[some 2, some 2, some 4, some 5, some 7]] [0, 1] [.val (some 2), .val (some 50)]
+    [(1, .val (some 9))]).1 = [[some 2, some 9, some 18, some 19, some 28]] := by decide
+
 -- Non-vacuity -----------------------------------------------------------------------------------
 
 /-- `CREATE TABLE t (c0 INT PRIMARY KEY, c1 INT DEFAULT 5, c2 INT DEFAULT (c0+1), c3 INT NOT NULL
@@ -929,5 +1105,19 @@ this fact flips, the model (and the known finding) must go. -/
 theorem virtual_wrapper_fact (T : Table) :
     T.loadedChecks = if T.hasVirtual && !virtualColumnTableIsCheckTable then [] else T.checks := by
   simp [Table.loadedChecks, virtualColumnTableIsCheckTable]
+
+open Gms.Generated.C19 in
+/-- Run-time fact: the freshly compiled planner schedules a derived SET for **every** generated column
+of `t(c0 PK, c1, c2, c3 AS (c1*2), c4 AS (c3+1), c5 AS (c4+c2), c6 AS (c2*10))`, in schema order, whatever
+the statement assigns — for UPDATE and for INSERT … ON DUPLICATE KEY UPDATE. This is the selection
+`fun _ => true` of `applySetsSel_all`, which is closed (`all_selection_closed`); a planner that
+drops `c4` for `SET c1 = …` has the selection refuted by `direct_selection_breaks_chain`. -/
+theorem derived_sets_fact :
+    derivedSetsOfChain =
+      ["UPDATE t SET c1 = 10 => 1 explicit; derived c3 c4 c5 c6",
+       "UPDATE t SET c2 = 4 WHERE c0 = 1 => 1 explicit; derived c3 c4 c5 c6",
+       "UPDATE t SET c0 = 7 => 1 explicit; derived c3 c4 c5 c6",
+       "INSERT INTO t (c0, c1) VALUES (3, 50) ON DUPLICATE KEY UPDATE c1 = 9 => 1 explicit; derived c3 c4 c5 c6"] := by
+  decide
 
 end Gms.C19
